@@ -39,6 +39,19 @@ class Violation:
         return Violation(d["props"], d["engine"], d["key"], d["detail"], d.get("payload"))
 
 
+_CKPT = [None]   # path the forked engine process leaves its partial result in (model-checking counts survive a native crash)
+
+
+def _checkpoint(r):
+    if _CKPT[0]:
+        try:
+            with open(_CKPT[0] + ".part", "w") as f:
+                json.dump(r.to_json(), f, default=_jsonable)
+            os.replace(_CKPT[0] + ".part", _CKPT[0] + ".ckpt")
+        except Exception:
+            pass
+
+
 class EngineResult:
     def __init__(self, name):
         self.name = name
@@ -66,6 +79,7 @@ class EngineResult:
         self.cmds.append(r.cmd.replace(ROOT, "/verif"))
         if r.error and not self.machinery_error:
             self.machinery_error = "TLC: " + r.error
+        _checkpoint(self)
 
     def count(self, prop, traces=0, evaluations=0, nontrivial=0):
         d = self.per_prop.setdefault(prop, {"traces": 0, "evaluations": 0, "nontrivial": 0})
@@ -237,6 +251,7 @@ def _run_engine(engine_name, fn, ctx):
     pid = os.fork()
     if pid == 0:
         code = 3
+        _CKPT[0] = path
         try:
             r = _run_engine_here(engine_name, fn, ctx)
             with open(path, "w") as f:
@@ -259,6 +274,11 @@ def _run_engine(engine_name, fn, ctx):
             except ValueError:
                 name = str(sig)
             r = EngineResult(engine_name)
+            try:
+                with open(path + ".ckpt") as f:      # what the engine had established (TLC runs) before the interpreter died
+                    r = EngineResult.from_json(json.load(f))
+            except Exception:
+                pass
             if sig in (signal.SIGSEGV, signal.SIGABRT, signal.SIGBUS, signal.SIGFPE, signal.SIGILL):
                 r.violations.append(Violation(_engine_props(engine_name, ctx), engine_name, {"kind": "code_crashes", "signal": name},
                                               "the interpreter was killed by %s while the engine exercised the code under test on inputs the specification accepts "
@@ -273,10 +293,11 @@ def _run_engine(engine_name, fn, ctx):
             r = EngineResult(engine_name)
             r.machinery_error = "engine process exited with status %s" % (os.WEXITSTATUS(status) if os.WIFEXITED(status) else status)
     finally:
-        try:
-            os.remove(path)
-        except OSError:
-            pass
+        for pth in (path, path + ".ckpt", path + ".part"):
+            try:
+                os.remove(pth)
+            except OSError:
+                pass
     r.wall_s = time.time() - t0
     return r
 
